@@ -714,7 +714,7 @@ func main() {
 	r := vf.NewRun("C31", "exploration",
 		"message sets for a real BlockPool over N in {4,7,10} peers (real keys, chain config from GenesisChainConfig, participants from the round's VRF): 8 scenarios cycled (honest below/at/above quorum; proposer also signs; empty commits; one faulty committer forging EndorsersSig in 7 ways x 4 choices of named indices, optionally with a faulty endorse message; two proposers; duplicates), delivery order shuffled in 70%; commitDone read after every message; distinct by (scenario, N, C, message list)")
 	rng := vf.NewRNG(vf.Seed())
-	nCases := vf.N(3000, 100000)
+	nCases := vf.N(10000, 100000)
 	var mu sync.Mutex
 	minimised := map[string]bool{}
 	agg := map[string]int64{}
